@@ -368,8 +368,8 @@ class Verdict:
 
     def __init__(self, pid):
         self.pid = pid
-        # replays of earlier runs of this check are stale
-        for f in glob.glob(os.path.join(REPLAYS, "%s.*.json" % pid)):
+        # replays of earlier runs of this check are stale (not while one of them is being replayed)
+        for f in ([] if os.environ.get("VERIF_REPLAY_MODE") else glob.glob(os.path.join(REPLAYS, "%s.*.json" % pid))):
             try:
                 os.remove(f)
             except OSError:
